@@ -286,7 +286,7 @@ Qed.
 
 Lemma span_fields_clean : forall s, clean_span s = true -> has10 (span_fields s) = false.
 Proof.
-  intros [name groups] H. unfold clean_span in H. simpl in H. apply andb_prop in H as [_ H].
+  intros [name groups tg] H. unfold clean_span in H. simpl in H. apply andb_prop in H as [_ H].
   unfold span_fields. simpl.
   assert (G : forall gs cur, forallb clean_fields gs = true -> has10 cur = false -> has10 (fold_left add_group gs cur) = false).
   { induction gs as [|g t IH]; intros cur Hg Hc; simpl in *; [assumption|].
@@ -383,7 +383,7 @@ Proof. vm_compute. auto. Qed.
 Example content_example_compact :
   let o := Opts false true false false true false false in
   let m := EMeta 2 (str "app") (str "event e") None None false in
-  let sc := [Span (str "outer") [[(str "a", str "1")]; [(str "b", str "2")]]; Span (str "inner") [[]]] in
+  let sc := [Span (str "outer") [[(str "a", str "1")]; [(str "b", str "2")]] (str "app"); Span (str "inner") [[]] (str "app")] in
   format_event Compact o (Thr [] []) (Em m sc (FOk (str "k") (str "7") FNil)) = OOk (str "! app:k=7 a=1 b=2" ++ [10]).
 Proof. vm_compute. auto. Qed.
 
@@ -400,4 +400,220 @@ Example faulty_pipeline_example :
       (0, FMake m); (1, FMake m); (0, FCall (CWrite [66; 10] RsFail));        (1, FCall (CWrite [66; 10] (RsAccept 2)));
       (0, FMake m); (1, FMake m); (0, FCall (CWrite [67; 10] (RsAccept 1))); (0, FCall (CWrite [10] (RsAccept 1)));
       (1, FCall (CWrite [67; 10] (RsAccept 2))) ].
+Proof. vm_compute. reflexivity. Qed.
+
+(** ** Span fields: every field of every group — the creation-time ones, then each later [record] — is in
+    the span's formatted fields, in order (DefaultFields: Full / Compact). *)
+Lemma render_group_is_ftoks : forall g first, render_group first g = concat (map render_ftok (group_ftoks first g)).
+Proof.
+  induction g as [|[n v] r IH]; intros first; simpl; [reflexivity|].
+  rewrite IH, <- !app_assoc. reflexivity.
+Qed.
+
+Lemma group_ftoks_fields : forall g first, ftok_fields (group_ftoks first g) = g.
+Proof. induction g as [|[n v] r IH]; intros first; simpl; [reflexivity | f_equal; apply IH]. Qed.
+
+Lemma ftok_fields_app : forall a b, ftok_fields (a ++ b) = ftok_fields a ++ ftok_fields b.
+Proof. intros. unfold ftok_fields. apply flat_map_app. Qed.
+
+Lemma fold_add_group_ftoks : forall gs cur,
+  fold_left add_group gs cur = cur ++ concat (map render_ftok (groups_ftoks cur gs))
+  /\ ftok_fields (groups_ftoks cur gs) = concat gs.
+Proof.
+  induction gs as [|g r IH]; intros cur; simpl.
+  - rewrite app_nil_r. auto.
+  - destruct (IH (add_group cur g)) as [E F]. rewrite E. split.
+    + remember (concat (map render_ftok (groups_ftoks (add_group cur g) r))) as rest.
+      rewrite !map_app, !concat_app, <- render_group_is_ftoks, <- Heqrest.
+      unfold add_group. destruct cur; simpl; rewrite <- ?app_assoc; reflexivity.
+    + rewrite !ftok_fields_app, group_ftoks_fields, F.
+      destruct cur; reflexivity.
+Qed.
+
+Theorem span_fields_names_every_field : forall s,
+  span_fields s = concat (map render_ftok (groups_ftoks [] (s_groups s)))
+  /\ ftok_fields (groups_ftoks [] (s_groups s)) = concat (s_groups s).
+Proof. intros s. unfold span_fields. destruct (fold_add_group_ftoks (s_groups s) []) as [E F]. auto. Qed.
+
+(** ** A lifecycle record is the record of an event named after the point ("new" / "enter" / "exit" /
+    "close", with the two durations when a timer is configured), in the span's own scope. *)
+Lemma lifecycle_ok_fields : forall sc timing k m scope, lifecycle_on sc k = true ->
+  exists fl, expand sc timing (OpSpan k m scope) = [Em m scope fl] /\ ok_fields fl = Some (lifecycle_fields k timing).
+Proof.
+  intros sc timing k m scope H. simpl. rewrite H. eexists. split; [reflexivity|].
+  destruct k; try reflexivity. destruct timing; reflexivity.
+Qed.
+
+Theorem lifecycle_record_content : forall f o th sc timing k m scope, lifecycle_on sc k = true ->
+  exists em, expand sc timing (OpSpan k m scope) = [em]
+    /\ format_event f o th em = OOk (concat (map (render_tok f) (tokens_spec f o th m scope (lifecycle_fields k timing)))).
+Proof.
+  intros f o th sc timing k m scope H.
+  destruct (lifecycle_ok_fields sc timing k m scope H) as [fl [E F]].
+  exists (Em m scope fl). split; [exact E|]. apply content_tokens, F.
+Qed.
+
+(** ** Pretty *)
+
+Lemma p_fields_are_tokens : forall fl first fs, ok_fields fl = Some fs ->
+  p_render_flds first fl = (concat (map render_ptok (pfield_toks first fs)), SOk).
+Proof.
+  induction fl as [|n v r IH|n e post r IH|n pre|n pre]; intros first fs H; simpl in *.
+  - inversion H. reflexivity.
+  - destruct (ok_fields r) as [fs'|]; [|discriminate]. inversion H; subst. simpl.
+    rewrite (IH false fs' eq_refl). rewrite <- !app_assoc. reflexivity.
+  - destruct (ok_fields r) as [fs'|]; [|discriminate]. inversion H; subst. simpl.
+    rewrite (IH false fs' eq_refl). rewrite <- !app_assoc. reflexivity.
+  - discriminate.
+  - discriminate.
+Qed.
+
+Lemma concat_map_app_p : forall (a b : list ptok),
+  concat (map render_ptok (a ++ b)) = concat (map render_ptok a) ++ concat (map render_ptok b).
+Proof. intros. rewrite map_app, concat_app. reflexivity. Qed.
+
+Lemma popt_render : forall b t (x : bytes), render_ptok t = x ->
+  concat (map render_ptok (popt b t)) = if b then x else [].
+Proof. intros [] t x H; simpl; [rewrite app_nil_r; assumption | reflexivity]. Qed.
+
+Lemma p_spans_are_tokens : forall o l, concat (map (p_span o) l) = concat (map render_ptok (map (pspan_tok o) l)).
+Proof.
+  intros o l. rewrite map_map. f_equal. apply map_ext. intros s. unfold p_span, pspan_tok. simpl.
+  destruct (o_target o); destruct (p_span_fields s); reflexivity.
+Qed.
+
+(** A completed Pretty record IS the concatenation of the renderings of its tokens. *)
+Theorem pretty_content_tokens : forall o th m sc fl fs, ok_fields fl = Some fs ->
+  format_event_pretty o th (Em m sc fl) = OOk (concat (map render_ptok (ptokens_spec o th m sc fs))).
+Proof.
+  intros o th m sc fl fs H. unfold format_event_pretty. rewrite (p_fields_are_tokens fl true fs H).
+  f_equal. unfold ptokens_spec, p_before, p_location.
+  rewrite !concat_map_app_p.
+  rewrite (popt_render (o_timer o) PTimer _ eq_refl).
+  rewrite (popt_render (o_level o) (PLevel (e_level m)) _ eq_refl).
+  rewrite (popt_render (o_target o) (PTarget (e_target m)) _ eq_refl).
+  rewrite <- p_spans_are_tokens.
+  remember (concat (map render_ptok (pfield_toks true fs))) as FF.
+  remember (concat (map (p_span o) (rev sc))) as SS.
+  unfold p_thread, p_shown_file, popt.
+  destruct (o_timer o), (o_level o), (o_target o), (shown_line o m), (o_file o), (e_file m), (o_tname o), (o_tid o);
+    repeat (progress (cbn -[level_str]; rewrite <- ?app_assoc)); reflexivity.
+Qed.
+
+Lemma pfield_toks_filters : forall first fs,
+  filter is_pspan_tok (pfield_toks first fs) = [] /\ filter is_pfield_tok (pfield_toks first fs) = pfield_toks first fs.
+Proof.
+  intros first fs. revert first. induction fs as [|[n v] r IH]; intros first; simpl; [auto|].
+  destruct (IH false) as [A B]. rewrite A, B. auto.
+Qed.
+
+Lemma pspan_toks_filters : forall o l,
+  filter is_pspan_tok (map (pspan_tok o) l) = map (pspan_tok o) l /\ filter is_pfield_tok (map (pspan_tok o) l) = [].
+Proof. intros o l. induction l as [|s t [A B]]; simpl; [auto|]. rewrite A, B. auto. Qed.
+
+(** What a Pretty record names: the level (when shown), every span of the scope it was given, INNERMOST
+    FIRST, each with its formatted fields (and its target when targets are shown), every event field with
+    its value in declaration order; it starts with the indent and ends with the blank line. *)
+Theorem pretty_names_everything : forall o th m sc fs,
+  let toks := ptokens_spec o th m sc fs in
+  (o_level o = true -> In (PLevel (e_level m)) toks)
+  /\ filter is_pspan_tok toks = map (pspan_tok o) (rev sc)
+  /\ filter is_pfield_tok toks = pfield_toks true fs
+  /\ exists mid, toks = PStart :: mid ++ [PEnd] /\ ~ In PEnd mid.
+Proof.
+  intros o th m sc fs toks. subst toks. unfold ptokens_spec.
+  destruct (pfield_toks_filters true fs) as [F1 F2], (pspan_toks_filters o (rev sc)) as [S1 S2].
+  split; [|split; [|split]].
+  - intros Hl. rewrite Hl. simpl. right. apply in_or_app. right. left. reflexivity.
+  - rewrite !filter_app, F1, S1. unfold popt.
+    destruct (o_timer o), (o_level o), (o_target o), (shown_line o m), (o_file o), (p_shown_file o m), (p_thread o);
+      simpl; rewrite ?app_nil_r; reflexivity.
+  - rewrite !filter_app, F2, S2. unfold popt.
+    destruct (o_timer o), (o_level o), (o_target o), (shown_line o m), (o_file o), (p_shown_file o m), (p_thread o);
+      simpl; rewrite ?app_nil_r; reflexivity.
+  - exists (popt (o_timer o) PTimer ++ popt (o_level o) (PLevel (e_level m)) ++ popt (o_target o) (PTarget (e_target m)) ++
+            (match shown_line o m with Some l => if o_file o then [] else [PLineInline l] | None => [] end) ++ [PGap] ++
+            pfield_toks true fs ++ [PEol] ++
+            (match p_shown_file o m with Some f => [PAt f (shown_line o m) (p_thread o)] | None => popt (p_thread o) POnIndent end) ++
+            popt (p_thread o) (POn (if o_tname o then Some (th_name th) else None) (o_tid o) (if o_tid o then Some (th_id th) else None)) ++
+            map (pspan_tok o) (rev sc)).
+    split; [rewrite <- !app_assoc; reflexivity|].
+    assert (NF : forall first, ~ In PEnd (pfield_toks first fs)).
+    { clear. induction fs as [|[n v] r IH]; intros first; simpl; [tauto|]. intros [H|H]; [discriminate | exact (IH false H)]. }
+    assert (NS : ~ In PEnd (map (pspan_tok o) (rev sc))).
+    { intros H. apply in_map_iff in H as [s [E _]]. discriminate. }
+    intros H.
+    repeat (apply in_app_or in H; destruct H as [H|H]);
+      try (exact (NF true H)); try (exact (NS H));
+      unfold popt in H;
+      repeat match type of H with context [match ?x with _ => _ end] => destruct x end;
+      simpl in H; intuition discriminate.
+Qed.
+
+Theorem pretty_lifecycle_record_content : forall o th sc timing k m scope, lifecycle_on sc k = true ->
+  exists em, expand sc timing (OpSpan k m scope) = [em]
+    /\ format_event_pretty o th em = OOk (concat (map render_ptok (ptokens_spec o th m scope (lifecycle_fields k timing)))).
+Proof.
+  intros o th sc timing k m scope H.
+  destruct (lifecycle_ok_fields sc timing k m scope H) as [fl [E F]].
+  exists (Em m scope fl). split; [exact E|]. apply pretty_content_tokens, F.
+Qed.
+
+(** Pretty's span fields, field by field ([fmt_fields = Pretty]: ", " between fields, also between the
+    creation-time fields and a later [record]). *)
+Lemma p_render_group_is_ftoks : forall g first, p_render_group first g = concat (map render_pftok (p_group_ftoks first g)).
+Proof.
+  induction g as [|[n v] r IH]; intros first; simpl; [reflexivity|].
+  rewrite IH, <- !app_assoc. reflexivity.
+Qed.
+
+Lemma p_group_ftoks_fields : forall g first, pftok_fields (p_group_ftoks first g) = g.
+Proof. induction g as [|[n v] r IH]; intros first; simpl; [reflexivity | f_equal; apply IH]. Qed.
+
+Lemma p_fold_add_group_ftoks : forall gs cur,
+  fold_left p_add_group gs cur = cur ++ concat (map render_pftok (p_groups_ftoks cur gs))
+  /\ pftok_fields (p_groups_ftoks cur gs) = concat gs.
+Proof.
+  induction gs as [|g r IH]; intros cur; simpl.
+  - rewrite app_nil_r. auto.
+  - destruct (IH (p_add_group cur g)) as [E F]. rewrite E. split.
+    + remember (concat (map render_pftok (p_groups_ftoks (p_add_group cur g) r))) as rest.
+      rewrite map_app, concat_app, <- p_render_group_is_ftoks, <- Heqrest.
+      unfold p_add_group. rewrite <- app_assoc. reflexivity.
+    + unfold pftok_fields in *. rewrite map_app. fold (pftok_fields (p_group_ftoks (nilb cur) g)).
+      rewrite p_group_ftoks_fields, F. reflexivity.
+Qed.
+
+Theorem pretty_span_fields_names_every_field : forall s,
+  p_span_fields s = concat (map render_pftok (p_groups_ftoks [] (s_groups s)))
+  /\ pftok_fields (p_groups_ftoks [] (s_groups s)) = concat (s_groups s).
+Proof. intros s. unfold p_span_fields. destruct (p_fold_add_group_ftoks (s_groups s) []) as [E F]. auto. Qed.
+
+(** Which spans: the event's own scope, unless the tree has Pretty's own lookup AND the event is an
+    explicit root — then the thread's current spans (finding F131). *)
+Lemma pretty_scope_is_event_scope : forall fallback is_root ev cur,
+  (fallback = true -> is_root = false) -> pretty_scope fallback is_root ev cur = ev.
+Proof.
+  intros fallback is_root ev cur H. unfold pretty_scope.
+  destruct is_root; [|reflexivity]. destruct fallback; [specialize (H eq_refl); discriminate | reflexivity].
+Qed.
+
+Lemma pretty_root_fallback_refuted :
+  let cur := [Span (str "req") [[(str "id", str "7")]] (str "app")] in
+  pretty_scope true true [] cur = cur
+  /\ format_event_pretty (Opts false true false false false false false) (Thr [] [])
+       (Em (EMeta 3 (str "app") (str "event e") None None false) (pretty_scope true true [] cur) (FOk (str "message") (str "root event") FNil))
+     = OOk (str "   INFO  root event" ++ [10] ++ str "    in req with id: 7" ++ [10; 10])
+  /\ format_event_pretty (Opts false true false false false false false) (Thr [] [])
+       (Em (EMeta 3 (str "app") (str "event e") None None false) (pretty_scope false true [] cur) (FOk (str "message") (str "root event") FNil))
+     = OOk (str "   INFO  root event" ++ [10; 10]).
+Proof. vm_compute. auto. Qed.
+
+Example content_example_pretty :
+  let o := Opts false true true true true true true in
+  let m := EMeta 2 (str "app") (str "event e") (Some (str "src/main.rs")) (Some (str "42")) false in
+  let sc := [Span (str "outer") [[(str "a", str "1")]; [(str "b", str "2")]] (str "app::db"); Span (str "inner") [[]] (str "app")] in
+  format_event_pretty o (Thr (str "wk00") (str "ThreadId(7)")) (Em m sc (FOk (str "message") (str "hello") (FOk (str "k") (str "7") FNil)))
+  = OOk (str "   WARN app: hello, k: 7" ++ [10] ++ str "    at src/main.rs:42 on wk00 ThreadId(7)" ++ [10]
+         ++ str "    in app::inner" ++ [10] ++ str "    in app::db::outer with a: 1, b: 2" ++ [10; 10]).
 Proof. vm_compute. reflexivity. Qed.
